@@ -53,8 +53,8 @@ CHECKS = {
    text="One seeded program per run executed once for every combination of RWMode x StartFileLoadingMode x SyncEnable (KV-only programs also x the three index modes); every call result, every commit outcome and the full observation after a final reopen must equal those of the reference combination.",
    note="SPop is not issued (Go map order); an empty scan result and the not-found error count as the same answer."),
  "C20": dict(cat="exploration", tech="deterministic simulation used for seeded stateful API fuzzing with boundary-heavy arguments and lifecycle misuse; oracle: no recovered panic in any call, Commit or Open",
-   text="Boundary-heavy arguments (int64 extremes, NaN/Inf, separators, empty names, bad regexps) in arbitrary order, in self-modifying transactions, read-only transactions, finished transactions, on a closed database (Update/View/Merge/Backup/Close), Update(nil), with reopens; no call, later Commit or later Open may panic.",
-   note="Fault-free; no schedule dimension: the simulator contributes persistent state (closed, finished, reopened), determinism and shrinking."),
+   text="Boundary-heavy arguments (int64 extremes, NaN/Inf, separators, empty names, bad regexps) in arbitrary order, in self-modifying transactions, read-only transactions, finished transactions, on a closed database (Update/View/Merge/Backup/Close), Update(nil), with reopens; one run in five is a scheduled program in which one task calls Close (others: transactions, Merge, Backup) at a seeded point of the others' Begin/Commit paths; no call, later Commit or later Open may panic.",
+   note="Fault-free. The simulator contributes persistent state (closed, finished, reopened), the interleaving of Close with running calls, determinism and shrinking."),
  "C22": dict(cat="exploration", tech="deterministic simulation: directories produced by seeded histories (incl. crash images and merged directories) reopened with every other index mode; refusal + byte-identical tree, or equal observation",
    text="For every image (clean, never written, written, merged, crashed at a seeded file-mutation point) produced in one index mode, Open with each other mode: sparse<->RAM on a directory holding data must be refused and leave the tree byte-identical; RAM<->RAM must succeed and show the model's contents.",
    note="A directory without any data record need not be refused (the statement speaks of data)."),
